@@ -41,7 +41,7 @@ def content_bytes(cid):
 def generate(rng, i, tier):
     long = rng.random() < 0.125
     n = rng.randint(9, 25) if long else rng.randint(3, 8)
-    weights = {"write": rng.choice([2, 3, 4]), "add": rng.choice([3, 4, 6]), "remove": rng.choice([0, 1, 1, 2]), "restart": rng.choice([0, 1, 2]), "add_bad": rng.choice([0, 0, 1]), "add_torn": rng.choice([0, 1, 1]), "bulk": rng.choice([0, 0, 1]), "add_iofault": rng.choice([0, 1, 1, 2])}
+    weights = {"write": rng.choice([2, 3, 4]), "add": rng.choice([3, 4, 6]), "remove": rng.choice([0, 1, 1, 2]), "restart": rng.choice([0, 1, 2]), "add_bad": rng.choice([0, 0, 1]), "add_torn": rng.choice([0, 1, 1]), "bulk": rng.choice([0, 0, 1]), "add_iofault": rng.choice([0, 1, 1, 2]), "bulk_dir": rng.choice([0, 0, 1])}
     kinds = [k for k, w in weights.items() for _ in range(w)]
     srcs = rng.sample(SOURCES[:5], rng.randint(2, 5))
     if rng.random() < 0.12:
@@ -78,6 +78,10 @@ def generate(rng, i, tier):
         elif k == "add_iofault":
             # the at-th file-system call the registration makes inside the named-files area fails (EIO); the caller retries
             opsl.append({"op": "add_iofault", "name": rng.choice(NAMES), "src": rng.choice(srcs), "at": rng.randint(1, 14)})
+        elif k == "bulk_dir":
+            # add_named_files_from_dir(): every accepted file of a directory, named by its stem - two files may share a stem
+            files = [[nm + ext, rng.choice(["c0", "c1", "c2"])] for nm in rng.sample(NAMES, rng.randint(1, 2)) for ext in rng.sample([".csv", ".tsv", ".txt"], rng.choice([1, 1, 2]))]
+            opsl.append({"op": "bulk_dir", "files": files})
         elif k == "bulk":
             # set_named_files({...}): several registrations in one call; one of the sources may be missing, which ends the call there
             items = [[nm, rng.choice(srcs)] for nm in rng.sample(NAMES, rng.randint(1, 2))]
@@ -442,6 +446,25 @@ def execute(sc):
                     shutil.rmtree(os.path.join("inputs", "named_files", op["name"]), ignore_errors=True)
                 if _read(sp) != data:
                     out.v("source_touched", f"step {step}: source {sp} changed by the failed add_named_file")
+            elif k == "bulk_dir":
+                d = os.path.join("src", f"dir{step}")
+                for fn, cid in op["files"]:
+                    w.write_bytes(os.path.join(d, fn), content_bytes(cid))
+                # (the listing of THIS directory is left in sorted order, so that the order of the registrations is known)
+                keep_rng, seams.STATE.listdir_rng = seams.STATE.listdir_rng, None
+                try:
+                    with ops.quiet():
+                        cs.file_manager.add_named_files_from_dir(d)
+                finally:
+                    seams.STATE.listdir_rng = keep_rng
+                for fn, cid in sorted(op["files"]):
+                    nm = fn[: fn.rfind(".")]
+                    data = content_bytes(cid)
+                    vs = model.setdefault(nm, [])
+                    if not vs or (vs[-1][0], vs[-1][1]) != (_sha(data), fn):
+                        vs.append((_sha(data), fn, data))
+                out.probe("directory registration with two files of one stem", len({fn[: fn.rfind(".")] for fn, _ in op["files"]}) < len(op["files"]))
+                cls.append(str(len(op["files"])))
             elif k == "bulk":
                 items = [(nm, src) for nm, src in op["items"] if src in src_now or nm == "nbad"]
                 bad = any(nm == "nbad" for nm, _ in items)
@@ -527,6 +550,7 @@ def execute(sc):
         out.probe("registration retried after a torn copy", False)
         out.probe("source rewritten between a torn copy and its retry", False)
         out.probe("bulk registration that fails part-way", False)
+        out.probe("directory registration with two files of one stem", False)
         out.probe("registration retried after an I/O error inside it", False)
         out.probe("remove retried after an I/O error inside it", False)
         out.nontrivial = any(len(vs) >= 2 for vs in model.values()) or any("repeat" in c for c in out.sig)
